@@ -123,36 +123,67 @@ def test (tf : Nat) (st : St) (c : Term) : Option (Option St) :=
       | _ => none
   | _ => none
 
+/-- the kind of a (dereferenced) goal -/
+inductive GK where
+  | var
+  | tru
+  | fal
+  | conj (a b : Term)
+  | call (a : Term)
+  | reset (a b c : Term)
+  | shift (t : Term)
+  | cont (l : Term)
+  | ite (c t e : Term)
+  | pred (name : String) (args : List Term)
+  | bad
+  deriving Repr, Inhabited
+
+def classify : Term → GK
+  | .var _ => .var
+  | .atom "true" => .tru
+  | .atom "fail" => .fal
+  | .atom "false" => .fal
+  | .atom a => .pred a []
+  | .str "," [a, b] => .conj a b
+  | .str "call" [a] => .call a
+  | .str "reset" [a, b, c] => .reset a b c
+  | .str "shift" [t] => .shift t
+  | .str "$cont" [l] => .cont l
+  | .str ";" [.str "->" [c, t], e] => .ite c t e
+  | .str f args => .pred f args
+  | _ => .bad
+
+def stepGoal (tf : Nat) (P : Prog) (g : Term) (K : List Frame) (st : St) : GK → Step
+  | .var => .err instErr
+  | .tru => .next ⟨K, st⟩
+  | .fal => .fail
+  | .conj a b => .next ⟨.goal a :: .goal b :: K, st⟩
+  | .call a => .next ⟨.goal a :: K, st⟩
+  | .reset a b c => .next ⟨.goal a :: .marker b c :: K, st⟩
+  | .shift t =>
+      match splitAtMarker K with
+      | none => .fail
+      | some (k, b, c, rest) =>
+          .next ⟨.goal (mkUnify c (contTerm k)) :: .goal (mkUnify b t) :: rest, st⟩
+  | .cont l =>
+      match decodeGoals tf l with
+      | none => .oom
+      | some gs => .next ⟨gs.map Frame.goal ++ K, st⟩
+  | .ite c t e =>
+      match test tf st c with
+      | none => .oom
+      | some (some st') => .next ⟨.goal t :: K, st'⟩
+      | some none => .next ⟨.goal e :: K, st⟩
+  | .pred f args => callPred tf P f args K st
+  | .bad => .err (typeErr "callable" g)
+
 def step (tf : Nat) (P : Prog) : Cfg → Step
   | ⟨[], st⟩ => .done st
   | ⟨.marker _ c :: K, st⟩ => .next ⟨.goal (mkUnify c (.atom "none")) :: K, st⟩
   | ⟨.goal g :: K, st⟩ =>
       match walk tf st.σ g with
       | none => .oom
-      | some (.var _) => .err instErr
-      | some (.atom "true") => .next ⟨K, st⟩
-      | some (.atom "fail") => .fail
-      | some (.atom "false") => .fail
-      | some (.atom a) => callPred tf P a [] K st
-      | some (.str "," [a, b]) => .next ⟨.goal a :: .goal b :: K, st⟩
-      | some (.str "call" [a]) => .next ⟨.goal a :: K, st⟩
-      | some (.str "reset" [a, b, c]) => .next ⟨.goal a :: .marker b c :: K, st⟩
-      | some (.str "shift" [t]) =>
-          match splitAtMarker K with
-          | none => .fail
-          | some (k, b, c, rest) =>
-              .next ⟨.goal (mkUnify c (contTerm k)) :: .goal (mkUnify b t) :: rest, st⟩
-      | some (.str "$cont" [l]) =>
-          match decodeGoals tf l with
-          | none => .oom
-          | some gs => .next ⟨gs.map Frame.goal ++ K, st⟩
-      | some (.str ";" [.str "->" [c, t], e]) =>
-          match test tf st c with
-          | none => .oom
-          | some (some st') => .next ⟨.goal t :: K, st'⟩
-          | some none => .next ⟨.goal e :: K, st⟩
-      | some (.str f args) => callPred tf P f args K st
-      | some _ => .err (typeErr "callable" g)
+      | some g' => stepGoal tf P g K st (classify g')
 
 inductive Outcome where
   | success (st : St)
